@@ -431,6 +431,26 @@ pub fn generate(seed: u64, n: usize, thorough: bool, corpus: Option<&str>) -> Ve
         push(one(&t, 1, &mut r, "operator-triples"), &mut cases);
     } } }
 
+    // --- neutral / absorbing literals next to every operator, on either side and nested (a "shortcut" for `x + 0`,
+    // `1 * x`, `x / 1`, `x and true` … must not fire for `0 - x`, `1 / x`, `0 -> x` …) (seeded change C09-15)
+    let mut rn = Rng::new(seed ^ 0x9e07);
+    for op in canon9 {
+        for lit in ["0", "1", "0.0", "1.0", "true", "false"] {
+            let l = || if lit.contains('.') { T::Float(lit.to_string()) } else if lit.len() > 1 { w(lit) } else { int(lit) };
+            let pats: Vec<Vec<T>> = vec![
+                vec![l(), bin_tok(op), w("a")],
+                vec![w("a"), bin_tok(op), l()],
+                vec![w("b"), bin_tok("*"), T::LPar, l(), bin_tok(op), w("a"), T::RPar],
+                vec![T::LPar, w("a"), bin_tok(op), l(), T::RPar, bin_tok("-"), w("b")],
+                vec![l(), bin_tok(op), w("a"), bin_tok(op), w("b")],
+                vec![w("a"), bin_tok(op), w("b"), bin_tok(op), l()],
+                vec![w("b"), bin_tok("-"), l(), bin_tok(op), w("a")],
+                vec![w("not"), T::LPar, l(), bin_tok(op), w("a"), T::RPar],
+            ];
+            for t in pats { push(one(&t, 0, &mut rn, "neutral-literals"), &mut cases); }
+        }
+    }
+
     // --- left-associative chains `v op c1 op c2 [op c3 [op c4]]` whose trailing operands are compile-time constants
     //     (literals and named `where` constants), every arithmetic operator and every same-level mixture: the compiled
     //     objective (after `into_exp`) must group them to the left
